@@ -5,7 +5,7 @@
 set -u
 W="$1"
 REPO="${VERIF_REPO:-/repo}"
-V=/verif
+V="${VERIF_HOME:-/verif}"
 export GOFLAGS=-mod=mod GOPROXY=off GOSUMDB=off GOTOOLCHAIN=local CGO_ENABLED=1
 export PATH=/opt/veriftools/go1.26.8/bin:$PATH
 fail() { echo "BUILD-TROUBLE: $*" >&2; exit 2; }
